@@ -36,6 +36,7 @@ package memefish
 // @   ensures[C09] errs: len(p.errors) >= old(len(p.errors))
 // @   ensures[C04] nonnil: notNil(result)
 // @   ensures[C04] wf: wf(result)
+// @   ensures[C07] precdef: precOK(result)
 // @   ensures[C05] pf: pf(result)
 // @   ensures[C05] range: within(result, lowerBound(), p.Lexer.Token.Pos)
 // @   panics when true
@@ -56,6 +57,7 @@ package memefish
 // @   ensures[C09] errs: len(p.errors) >= old(len(p.errors))
 // @   ensures[C04] nonnil: notNil(result)
 // @   ensures[C04] wf: wf(result)
+// @   ensures[C07] precdef: precOK(result)
 // @   ensures[C05] pf: pf(result)
 // @   ensures[C05] range: within(result, lowerBound(), p.Lexer.Token.Pos)
 // @   ensures[C03] progress: len(p.errors) == old(len(p.errors)) ==> p.Lexer.Token.Pos > old(p.Lexer.Token.Pos)
@@ -77,6 +79,7 @@ package memefish
 // @   ensures p.Lexer.Token.Pos >= old(p.Lexer.Token.Pos)
 // @   ensures[C09] errs: len(p.errors) >= old(len(p.errors))
 // @   ensures[C04] wf: wf(result)
+// @   ensures[C07] precdef: precOK(result)
 // @   ensures[C05] pf: pf(result)
 // @   ensures[C05] range: within(result, lowerBound(), p.Lexer.Token.Pos)
 // @   panics when true
@@ -224,6 +227,7 @@ package memefish
 // @   ensures[C09] recorded: len(p.errors) == old(len(p.errors)) + 1
 // @   ensures[C04] nonnil: notNil(result)
 // @   ensures[C04] wf: wf(result)
+// @   ensures[C07] precdef: precOK(result)
 // @   ensures[C05] pf: pf(result)
 // @   ensures[C05] range: within(result, old(l.Token.Pos), p.Lexer.Token.Pos)
 // @   panics never
@@ -305,6 +309,7 @@ package memefish
 // @   ensures[C09] errs: len(p.errors) >= old(len(p.errors))
 // @   ensures len(result) >= 1
 // @   ensures[C04] wf: wf(result)
+// @   ensures[C07] precdef: precOK(result)
 // @   ensures[C05] pf: pf(result)
 // @   ensures[C05] range: within(result, old(p.Lexer.Token.Pos), p.Lexer.Token.Pos)
 // @   ensures[C05] pf: pf(result)
@@ -321,6 +326,7 @@ package memefish
 // @   ensures ParserInv(p) && (p.Lexer == old(p.Lexer) || fresh(p.Lexer)) && p.Lexer.File == old(p.Lexer.File)
 // @   ensures[C09] errs: len(p.errors) >= old(len(p.errors))
 // @   ensures[C04] wf: wf(result)
+// @   ensures[C07] precdef: precOK(result)
 // @   ensures[C05] pf: pf(result)
 // @   ensures[C05] range: within(result, lowerBound(), p.Lexer.Token.Pos)
 // @   panics never
@@ -340,6 +346,7 @@ package memefish
 // @   ensures[C09] errs: len(p.errors) >= old(len(p.errors))
 // @   ensures[C04] nonnil: notNil(result)
 // @   ensures[C04] wf: wf(result)
+// @   ensures[C07] precdef: precOK(result)
 // @   ensures[C05] pf: pf(result)
 // @   ensures[C05] range: within(result, lowerBound(), p.Lexer.Token.Pos)
 // @   panics never
@@ -374,30 +381,48 @@ package memefish
 // @ spec chainInv(p, expr, nerr0, pos0) = notNil(expr) && wf(expr) && (len(p.errors) == nerr0 ==> p.Lexer.Token.Pos > pos0)
 // @ func memefish.(*Parser).parseOr
 // @   inherit parser
+// @   ensures[C07] level: prec(result) <= 12 && parenfree(result)
+// @   loop 0 invariant[C07] lvl: prec(expr) <= 12 && parenfree(expr) && precOK(expr)
 // @   loop 0 invariant chainInv(p, expr, old(len(p.errors)), old(p.Lexer.Token.Pos)) && freshRef(expr)
 // @ func memefish.(*Parser).parseAnd
 // @   inherit parser
+// @   ensures[C07] level: prec(result) <= 11 && parenfree(result)
+// @   loop 0 invariant[C07] lvl: prec(expr) <= 11 && parenfree(expr) && precOK(expr)
 // @   loop 0 invariant chainInv(p, expr, old(len(p.errors)), old(p.Lexer.Token.Pos)) && freshRef(expr)
 // @ func memefish.(*Parser).parseBitOr
 // @   inherit parser
+// @   ensures[C07] level: prec(result) <= 8 && parenfree(result)
+// @   loop 0 invariant[C07] lvl: prec(expr) <= 8 && parenfree(expr) && precOK(expr)
 // @   loop 0 invariant chainInv(p, expr, old(len(p.errors)), old(p.Lexer.Token.Pos)) && freshRef(expr)
 // @ func memefish.(*Parser).parseBitXor
 // @   inherit parser
+// @   ensures[C07] level: prec(result) <= 7 && parenfree(result)
+// @   loop 0 invariant[C07] lvl: prec(expr) <= 7 && parenfree(expr) && precOK(expr)
 // @   loop 0 invariant chainInv(p, expr, old(len(p.errors)), old(p.Lexer.Token.Pos)) && freshRef(expr)
 // @ func memefish.(*Parser).parseBitAnd
 // @   inherit parser
+// @   ensures[C07] level: prec(result) <= 6 && parenfree(result)
+// @   loop 0 invariant[C07] lvl: prec(expr) <= 6 && parenfree(expr) && precOK(expr)
 // @   loop 0 invariant chainInv(p, expr, old(len(p.errors)), old(p.Lexer.Token.Pos)) && freshRef(expr)
 // @ func memefish.(*Parser).parseBitShift
 // @   inherit parser
+// @   ensures[C07] level: prec(result) <= 5 && parenfree(result)
+// @   loop 0 invariant[C07] lvl: prec(expr) <= 5 && parenfree(expr) && precOK(expr)
 // @   loop 0 invariant chainInv(p, expr, old(len(p.errors)), old(p.Lexer.Token.Pos)) && freshRef(expr)
 // @ func memefish.(*Parser).parseAddSub
 // @   inherit parser
+// @   ensures[C07] level: prec(result) <= 4 && parenfree(result)
+// @   loop 0 invariant[C07] lvl: prec(expr) <= 4 && parenfree(expr) && precOK(expr)
 // @   loop 0 invariant chainInv(p, expr, old(len(p.errors)), old(p.Lexer.Token.Pos)) && freshRef(expr)
 // @ func memefish.(*Parser).parseMulDiv
 // @   inherit parser
+// @   ensures[C07] level: prec(result) <= 3 && parenfree(result)
+// @   loop 0 invariant[C07] lvl: prec(expr) <= 3 && parenfree(expr) && precOK(expr)
 // @   loop 0 invariant chainInv(p, expr, old(len(p.errors)), old(p.Lexer.Token.Pos)) && freshRef(expr)
 // @ func memefish.(*Parser).parseSelector
 // @   inherit parser
+// @   ensures[C07] level: prec(result) <= 1 && parenfree(result)
+// @   loop 0 invariant[C07] lvl: prec(expr) <= 1 && parenfree(expr) && precOK(expr)
 // @   loop 0 invariant chainInv(p, expr, old(len(p.errors)), old(p.Lexer.Token.Pos)) && freshRef(expr)
 // @ func memefish.(*Parser).parseIdentOrPath
 // @   inherit parser
@@ -488,6 +513,7 @@ package memefish
 // @   ensures[C09] errs: len(p.errors) >= old(len(p.errors))
 // @   ensures[C04] nonnil: notNil(result)
 // @   ensures[C04] wf: wf(result)
+// @   ensures[C07] precdef: precOK(result)
 // @   ensures[C05] pf: pf(result)
 // @   ensures[C05] range: within(result, lowerBound(), p.Lexer.Token.Pos)
 // @   ensures result == e || freshRef(result)
@@ -515,6 +541,7 @@ package memefish
 // @   ensures[C09] errs: len(p.errors) >= old(len(p.errors))
 // @   ensures[C04] nonnil: notNil(result)
 // @   ensures[C04] wf: wf(result)
+// @   ensures[C07] precdef: precOK(result)
 // @   ensures[C05] pf: pf(result)
 // @   ensures[C05] range: within(result, lowerBound(), p.Lexer.Token.Pos)
 // @   ensures[C18,C05] freshres: freshRef(result)
@@ -558,3 +585,34 @@ package memefish
 // @   ensures[C03,C04] node: notNil(result0)
 // @   panics never
 // @   modifies nothing
+
+// The remaining precedence levels (no loop of their own).
+// @ func memefish.(*Parser).parseNot
+// @   inherit parser
+// @   ensures[C07] level: prec(result) <= 10 && parenfree(result)
+// @ func memefish.(*Parser).parseComparison
+// @   inherit parser
+// @   ensures[C07] level: prec(result) <= 9 && parenfree(result)
+// @ func memefish.(*Parser).parseUnary
+// @   inherit parser
+// @   ensures[C07] level: prec(result) <= 2 && parenfree(result)
+// @ func memefish.(*Parser).parseLit
+// @   inherit parser
+// @   ensures[C07] level: prec(result) <= 0 && parenfree(result)
+
+// Productions of primary expressions that return the interface type ast.Expr.
+// @ func memefish.(*Parser).parseArrayLiteralOrSubQuery
+// @   inherit parser
+// @   ensures[C07] level: prec(result) <= 0 && parenfree(result)
+// @ func memefish.(*Parser).parseStructLiteral
+// @   inherit parser
+// @   ensures[C07] level: prec(result) <= 0 && parenfree(result)
+// @ func memefish.(*Parser).parseParenExpr
+// @   inherit parser
+// @   ensures[C07] level: prec(result) <= 0 && parenfree(result)
+// @ func memefish.(*Parser).parseNewConstructors
+// @   inherit parser
+// @   ensures[C07] level: prec(result) <= 0 && parenfree(result)
+// @ func memefish.(*Parser).parseCallLike
+// @   inherit parser
+// @   ensures[C07] level: prec(result) <= 0 && parenfree(result)
